@@ -56,7 +56,7 @@ static bool classify_c07(const KV &c, std::vector<std::string> &tags) {
     bool inplace = iface >= I_ENC128 && tonum(c, "inplace") != 0 && !in.empty();
     tags.push_back(std::string("iface=") + INAME[iface]);
     if (copy) tags.push_back("copy");
-    if (reinit) tags.push_back("reinit-after-use");
+    if (reinit) tags.push_back(iface >= I_ENC128 && tonum(c, "xmode") ? "later-packet-of-a-session" : "reinit-after-use");
     if ((iface == I_XOF || iface == I_XOFA) && tonum(c, "pad_at", 99) < in.size()) tags.push_back("pad-between-absorbs");
     if ((iface == I_XOF || iface == I_XOFA) && tonum(c, "declared")) tags.push_back(tonum(c, "xmode") ? "xof-variant=custom" : "xof-variant=fixed");
     if (inplace) tags.push_back("in-place");
@@ -290,7 +290,18 @@ static std::string check_aead_inc(const KV &c, int alg, bool decrypt) {
     typename A::state_t *s = (typename A::state_t *)xalloc(sizeof(typename A::state_t));
     memset(s, 0xA5, sizeof(*s));
     Buf k(key), n(nonce), a(ad);
-    if (tonum(c, "reinit")) {
+    if (tonum(c, "reinit") && tonum(c, "xmode")) {
+        // a later packet of one session: the same object has encrypted a complete earlier packet under nonce - 1
+        // (start / blocks / finalize), and start() alone begins the next packet under the incremented nonce
+        Bytes n1 = nonce;
+        for (int i = 15; i >= 0; --i) if (n1[i]-- != 0) break;
+        Buf nn(n1), ja(junk);
+        A::init(s, nn.p, k.p);
+        A::start(s, ja.p, ja.n);
+        size_t pos = 0;
+        for (uint64_t ch : junk_chunks) { Buf p(slice(junk, pos, ch)), o(ch); A::encb(s, p.p, o.p, ch); pos += ch; }
+        Buf t(16); A::encf(s, t.p);
+    } else if (tonum(c, "reinit")) {
         // a previous packet with other key/nonce on the same object, possibly unfinished
         Bytes k2 = key, n2 = nonce; k2[0] ^= 0x55; n2[15] ^= 0x01;
         Buf kk(k2), nn(n2), ja(junk);
